@@ -2,6 +2,11 @@
   C06 — conditions: one truthiness rule, and-of-ors grouping, parentheses.
   Props/C06Core.lean : the truthiness table and the evaluator (`C06_eval_correct` …).
   Props/C06Consumers.lean : if / elseif / while / not all decide by that same evaluation.
+  Props/C06Translated.lean : the index-faithful TRANSLATION of the current source of
+                          `eval_condition_for_slice` (Generated/ScannerCond.lean, regenerated on
+                          every run by bin/rust2lean.py) never panics and computes exactly what the
+                          evaluator model computes — so the theorems above hold of it.
 -/
 import DuckModel.Props.C06Core
 import DuckModel.Props.C06Consumers
+import DuckModel.Props.C06Translated
